@@ -50,6 +50,27 @@ def exactInt : Prim Float → Option Int
   | .boolean b => some (if b then 1 else 0)
   | _ => none
 
+/-- the real number an operand of `+ - * /` stands for (`as f64`) -/
+def asF : Prim Float → Option Float
+  | .number x => some x
+  | .integer i => some (Arith.ofInt i)
+  | .pint n => some (Arith.ofInt (n : Int))
+  | .boolean b => some (if b then 1.0 else 0.0)
+  | _ => none
+
+/-- the meaning of a `Number` result, written independently of the case-by-case port: operands converted, operator
+applied LEFT to RIGHT; a zero divisor (0, 0.0, -0.0, false) is never a value -/
+def floatMeaning (op : String) (a b : Prim Float) (r : Float) : Option Sexp :=
+  match asF a, asF b with
+  | some x, some y =>
+    if op == "div" && y == 0.0 then some (app "violation" [.atom "division-by-zero-accepted", encNum x, encNum y, encNum r])
+    else
+      let e : Option Float := match op with | "add" => some (x + y) | "sub" => some (x - y) | "mul" => some (x * y) | "div" => some (x / y) | _ => none
+      match e with
+      | some e => if (e.isNaN && r.isNaN) || e.toBits == r.toBits then none else some (app "violation" [.atom "arithmetic-wrong-value", encNum e, encNum r])
+      | none => none
+  | _, _ => none
+
 def oracle : List Sexp → Sexp
   | [.atom "total", .list outcomes] =>
     match stageVerdict outcomes with
@@ -61,6 +82,7 @@ def oracle : List Sexp → Sexp
       -- exact integer meaning: an `Integer` / `PositiveInteger` result of + - * is the mathematical result
       | [.atom "binop", .atom op, a, b], .list [.atom "ok", r] =>
         match (Prim.dec a : Option (Prim Float)), (Prim.dec b : Option (Prim Float)), (Prim.dec r : Option (Prim Float)) with
+        | some pa, some pb, some (.number x) => (match floatMeaning op pa pb x with | some v => v | none => app "ok" [])
         | some (.boolean _), _, _ => app "ok" []
         | some pa, some pb, some pr =>
           match exactInt pa, exactInt pb, pr with
